@@ -355,7 +355,7 @@ type VCase struct {
 	Src     string      `json:"src"`
 	History []Step      `json:"history"` // with the model's expectations
 	Batch   bool        `json:"batch,omitempty"`
-	Cold    bool        `json:"cold_runtime,omitempty"`
+	Caps    int         `json:"stack_caps"`               // capacity given to the VM's auxiliary stacks before the history starts
 	OneRun  bool        `json:"one_script_run,omitempty"` // start() and all calls inside one script run
 	At      int         `json:"at"`                       // index of the diverging step (-1: start)
 	GotRes  string      `json:"got_res"`
@@ -380,13 +380,10 @@ func eqStrings(a, b []string) bool {
 
 // runGenHistory executes one maximal history on the engine in lock-step with the model's expectations.
 // It returns the number of transitions executed and a non-nil violation case on the first divergence.
-func (w *worker) runGenHistory(c Case, src string, hist []Step, cold, oneRun bool) (n int, vc *VCase, class string) {
-	if cold {
-		w.discard()
-	}
+func (w *worker) runGenHistory(c Case, src string, hist []Step, caps int, oneRun bool) (n int, vc *VCase, class string) {
 	e := w.engine()
 	mk := func(at int, res string, lg []string, ft *fault) *VCase {
-		v := &VCase{Part: "gen", Name: c.Name, Prog: c.Prog, Src: src, History: hist, At: at, GotRes: res, GotLog: lg, Cold: cold, OneRun: oneRun}
+		v := &VCase{Part: "gen", Name: c.Name, Prog: c.Prog, Src: src, History: hist, At: at, GotRes: res, GotLog: lg, Caps: caps, OneRun: oneRun}
 		if ft != nil {
 			v.Fault = ft.kind + ": " + ft.detail
 		}
@@ -396,6 +393,7 @@ func (w *worker) runGenHistory(c Case, src string, hist []Step, cold, oneRun boo
 		w.discard()
 		return 0, mk(-1, err.Error(), nil, nil), "define failed: " + errClass(err)
 	}
+	setStackCaps(e.rt, caps)
 	if oneRun {
 		res, logs, ft := e.genRunAll(hist)
 		for i := range res {
@@ -510,6 +508,11 @@ func logKind(s string) string {
 func bodyClass(name string) string { return strings.TrimSuffix(name, " [captured]") }
 
 // ---- run ----
+
+// stackCaps are the capacities the VM's auxiliary stacks are given before a history starts (see wb.go):
+// 0 = a fresh runtime, 64 = warm (no re-allocation during the history); which schedule gets which capacity
+// rotates with the body index.
+var stackCaps = []int{0, 3, 5, 6, 7, 64}
 
 type schedule struct {
 	name   string
@@ -671,8 +674,8 @@ func (w *worker) genCase(c Case, idx int64, histLen int, scheds []schedule) {
 			for i := range h {
 				h[i].Ctx = sc.ctx[i%len(sc.ctx)]
 			}
-			cold := si == 0 && ti == 0 && idx%16 == 0
-			n, vc, class := w.runGenHistory(c, src, h, cold, sc.oneRun)
+			caps := stackCaps[(si+int(idx))%len(stackCaps)]
+			n, vc, class := w.runGenHistory(c, src, h, caps, sc.oneRun)
 			r.Transitions(int64(n))
 			if vc != nil {
 				w.report(class, vc)
@@ -723,7 +726,7 @@ func expectGen(p *gm.Program, hist []Step) (h []Step, ok bool) {
 }
 
 // failsAs runs (p, hist) on a fresh engine against a fresh model and returns the failure class ("" = passes).
-func failsAs(part string, name string, p *gm.Program, hist []Step, batch, oneRun bool) (class string, out *VCase) {
+func failsAs(part string, name string, p *gm.Program, hist []Step, batch, oneRun bool, caps int) (class string, out *VCase) {
 	w := &worker{}
 	c := Case{Name: name, Prog: p}
 	switch part {
@@ -732,13 +735,13 @@ func failsAs(part string, name string, p *gm.Program, hist []Step, batch, oneRun
 		if !ok {
 			return "", nil
 		}
-		_, out, class = w.runGenHistory(c, p.JS(false), h, true, oneRun)
+		_, out, class = w.runGenHistory(c, p.JS(false), h, caps, oneRun)
 	case "async":
 		exp, unsup := modelAsync(p, hist, batch)
 		if unsup != "" {
 			return "", nil
 		}
-		_, out, class = w.runAsyncHistory(c, p.JS(true), exp, batch)
+		_, out, class = w.runAsyncHistory(c, p.JS(true), exp, batch, caps)
 	}
 	if out == nil {
 		return "", nil
@@ -752,8 +755,12 @@ func signatureOf(vc *VCase, class string) (sig string, minProg *gm.Program, minH
 	if vc.Part == "gen" && vc.At >= 0 && vc.At+1 < len(hist) {
 		hist = hist[:vc.At+1]
 	}
+	caps := vc.Caps
+	if c, _ := failsAs(vc.Part, vc.Name, vc.Prog, hist, vc.Batch, vc.OneRun, 0); c == class {
+		caps = 0 // also fails on a fresh runtime: the canonical form
+	}
 	fails := func(p *gm.Program, h []Step) bool {
-		c, _ := failsAs(vc.Part, vc.Name, p, h, vc.Batch, vc.OneRun)
+		c, _ := failsAs(vc.Part, vc.Name, p, h, vc.Batch, vc.OneRun, caps)
 		return c == class
 	}
 	if vc.At < 0 {
@@ -765,9 +772,10 @@ func signatureOf(vc *VCase, class string) (sig string, minProg *gm.Program, minH
 		if vc.OneRun {
 			ht += " [one script run]"
 		}
+		ht += fmt.Sprintf(" [stack caps %d]", caps)
 		sig = "gen|" + bodyText(minProg, false) + "|" + ht + "|" + class
 	} else {
-		sig = "async|" + bodyText(minProg, true) + "|" + asyncHistText(minHist, vc.Batch) + "|" + class
+		sig = "async|" + bodyText(minProg, true) + "|" + asyncHistText(minHist, vc.Batch) + fmt.Sprintf(" [stack caps %d]", caps) + "|" + class
 	}
 	return
 }
@@ -781,7 +789,7 @@ func (w *worker) report(class string, vc *VCase) {
 		return
 	}
 	for i := 0; i < 5; i++ {
-		c2, _ := failsAs(vc.Part, vc.Name, vc.Prog, vc.History, vc.Batch, vc.OneRun)
+		c2, _ := failsAs(vc.Part, vc.Name, vc.Prog, vc.History, vc.Batch, vc.OneRun, vc.Caps)
 		if c2 != class {
 			if c2 == "" {
 				c2 = "passes"
@@ -830,7 +838,7 @@ func replay(r *core.Run, raw json.RawMessage) {
 		r.Violation("replay|bad-case", err.Error(), nil)
 		return
 	}
-	class, out := failsAs(vc.Part, vc.Name, vc.Prog, vc.History, vc.Batch, vc.OneRun)
+	class, out := failsAs(vc.Part, vc.Name, vc.Prog, vc.History, vc.Batch, vc.OneRun, vc.Caps)
 	if out != nil {
 		sig, mp, mh := signatureOf(out, class)
 		out.MinSrc = bodyText(mp, vc.Part == "async")
